@@ -1,17 +1,18 @@
-SPECIFICATION Spec
+SPECIFICATION SimSpec
 CONSTANTS
   Cap = 2
   H0 = 0
   MaxIdx = 5
   Procs = {"p1", "p2"}
-  MaxPuts = 6
-  Blocking = FALSE
+  MaxPuts = 4
+  Blocking = TRUE
   WithExternal = FALSE
   WithDiscard = FALSE
   WithRequester = FALSE
   PeerH = 0
   BugClearAlways = FALSE
   BugKeepOld = FALSE
-VIEW view
-INVARIANTS LenExact
+  Depth = 30
+  WitnessKind = "none"
+INVARIANT Emit
 CHECK_DEADLOCK FALSE
